@@ -7,7 +7,7 @@ generated geometry + small bundled models) are mutated by enumerated fault opera
 decimal-token inflation, chunk delete / duplicate / swap, splices, arbitrary noise) or replaced by
 well-formed files of the same format in which one structural dimension is scaled up (G-grown,
 vmon/gen/grown.py: instance graphs as chain / diamond / ring / loop / fan, records of one kind,
-the length of one line), and loaded
+the length of one line, the shape of the name repeated records share), and loaded
 by the real loaders inside child processes (vmon/child_load.py) that watch: interpreter
 survival (exit status / signal / faulthandler), CPU seconds against a bound linear in the
 input size, memory (RLIMIT_AS cap linear in the input size + peak RSS growth), the exception
@@ -47,7 +47,10 @@ RULE = (
     "of an SVG transform list; records of one kind: buffer views, accessors, nodes, meshes, materials, "
     "primitives, usemtl / o / g groups, PLY list / scalar properties and elements, DXF entities / layers / "
     "inserts / polyline vertices, SVG paths / segments / sub-paths / arcs, STL solids, polygon corners; the "
-    "length of one line: DXF comment / layer / text, OBJ / OFF comment, STL name), sizes per tier in "
+    "length of one line: DXF comment / layer / text, OBJ / OFF comment, STL name; the SHAPE of the name that "
+    "repeated records share - plain, ending in _<int> / _<zero padded int> / _<int beyond the record count> / "
+    "digits / _<text> / _, empty, long - for OBJ objects, STL solids, glTF nodes / meshes / primitives / "
+    "materials, 3MF objects / build items, primitives of one COLLADA geometry: `<family>@<shape>`), sizes per tier in "
     "grown.FAMILIES, judged against the same linear bounds.  distinct = distinct "
     "(loader, entry, via, operator, parameters, seed); non-trivial = the mutated bytes differ from the "
     "valid seed (op != valid)."
@@ -91,7 +94,7 @@ ASSUMPTIONS = [
 HERE = os.path.dirname(os.path.dirname(os.path.dirname(os.path.abspath(__file__))))
 NCHILD = int(os.environ.get("VERIF_C20_CHILDREN", "14"))
 CASES_PER_CHILD = 400
-GROW_PER_CHILD = 5
+GROW_PER_CHILD = 7
 HEAVY_SLOTS = max(2, (2 * NCHILD) // 3)
 # OpenCASCADE (step, stp) starts a pool of ~3 threads per core; every thread reserves 8 MiB of stack and a
 # 64 MiB malloc arena of ADDRESS SPACE: under the 256 MiB cap the unmodified bundled model hangs or
